@@ -1,5 +1,7 @@
 package wpool
 
+import "github.com/glebziz/fs_db/internal/utils/vhook"
+
 func (p *Pool) lazySend(e Event) {
 	p.listM.Lock()
 	defer p.listM.Unlock()
@@ -10,6 +12,7 @@ func (p *Pool) lazySend(e Event) {
 
 func (p *Pool) lazyResend() {
 	if !p.lazySendM.TryLock() {
+		vhook.At("wpool.lazyresend.busy")
 		return
 	}
 
@@ -25,6 +28,7 @@ func (p *Pool) lazyResend() {
 			n := p.el.PopBack()
 			p.listM.Unlock()
 			if n == nil {
+				vhook.At("wpool.flusher.empty")
 				return
 			}
 
@@ -32,6 +36,7 @@ func (p *Pool) lazyResend() {
 			case <-p.ctx.Done():
 				return
 			case p.ch <- n.V():
+				vhook.At("wpool.flusher.send")
 				p.pool.Release(n)
 			}
 		}
